@@ -163,5 +163,11 @@ example :
     let w : World := { (default : World) with vals := [(0, { hist := [], totalDelShares := [], valShares := [(1, 5)] })] }
     ((resetAssetAndValidators a w).2.vals.map (·.2.valShares)) = [[]] := by decide
 
+/-- the clamped subtraction behind `ReduceShares` is what the source says now (regenerated from x/alliance/types/validator.go
+    on every run, its `for … range` loop included; §4.3 of DESIGN.md) -/
+theorem clamped_subtraction_is_the_source (d1s d2s : DecCoins) :
+    Generated.SubtractDecCoinsWithRounding d1s d2s = subtractDecCoinsWithRounding d1s d2s :=
+  ArithTie.subtractDecCoinsWithRounding_is_source d1s d2s
+
 end C03
 end Alliance
